@@ -178,7 +178,7 @@ Section StepLaw.
 
   Lemma step_slot s o : o_slot (snd (step E s o)) = fst (step E s o).
   Proof.
-    unfold step. cbv zeta. destruct o as [v| | |v'|].
+    unfold step. cbv zeta. destruct o as [v| | |v'| |].
     - destruct (e_validate E v) as [w|]; [|reflexivity]. destruct (e_kind E) as [m|].
       + destruct (is_nil hs); [reflexivity|]. destruct (notify E (OVal (readable E s)) (nv_of v w)).
         destruct m; [|destruct (readable E s =? nv_of v w)..]; reflexivity.
@@ -189,6 +189,7 @@ Section StepLaw.
       destruct (match m with MNone => true | _ => negb (old =? e_default E) end);
         [destruct (notify E (OVal old) (e_default E))|]; reflexivity.
     - destruct (e_validate E v'); [|reflexivity]. destruct (e_kind E); reflexivity.
+    - reflexivity.
     - reflexivity.
   Qed.
 
@@ -204,7 +205,7 @@ Section StepLaw.
 
   Lemma step_law s o : law_step E s o (snd (step E s o)) = [].
   Proof.
-    unfold step, law_step. destruct o as [v| | |v'|].
+    unfold step, law_step. destruct o as [v| | |v'| |].
     - (* Assign *)
       destruct (e_validate E v) as [w0|]; [|reflexivity].
       destruct (e_kind E) as [m|] eqn:K; [set (w := new_value E v w0); cbv beta iota|rename w0 into w].
@@ -263,6 +264,7 @@ Section StepLaw.
     - (* QuietAssign: the law is silent *)
       reflexivity.
     - reflexivity.
+    - reflexivity.
   Qed.
 
   Theorem run_law ops : forall s i, law_hist E i s (run E s ops) = [].
@@ -315,6 +317,7 @@ Section Spec.
         | _, _ => spec_calls h s r
         end
     | Retrait :: r => spec_calls h s r
+    | Other :: r => spec_calls h s r
     | QuietAssign v :: r =>               (* no call; the value is stored like an ordinary assignment *)
         spec_calls h (match e_validate E v, e_kind E with Some w, TNormal _ => Some (new_value E v w) | _, _ => s end) r
     | Assign v :: r =>
@@ -409,7 +412,7 @@ Section Spec.
   Proof.
     intros Hin. induction ops as [|o r IH]; intros s; [reflexivity|]. cbn [run].
     destruct (step E s o) as [s' ob] eqn:St. cbn [all_calls flat_map snd]. rewrite calls_of_app. fold (all_calls (run E s' r)).
-    rewrite IH. destruct o as [v| | |v'|].
+    rewrite IH. destruct o as [v| | |v'| |].
     - cbn [spec_calls]. destruct (e_validate E v) as [w|] eqn:Hv.
       + destruct (step_assign_calls h s v w Hin Hv) as [C S]. rewrite St in C, S. cbn [fst snd] in C, S. rewrite C, S.
         destruct (e_kind E); reflexivity.
@@ -420,6 +423,7 @@ Section Spec.
       rewrite C, S. unfold after_delete. destruct (e_kind E) as [m|]; [destruct s as [old|]|]; reflexivity.
     - cbn [spec_calls]. unfold step in St. destruct (e_validate E v') as [w|]; [destruct (e_kind E)|];
         inversion St; subst; reflexivity.
+    - cbn [spec_calls]. cbn in St. inversion St; subst. reflexivity.
     - cbn [spec_calls]. cbn in St. inversion St; subst. reflexivity.
   Qed.
 
@@ -434,7 +438,7 @@ Section Spec.
     \/ (o = Delete /\ snd (fst c) = OVal (readable E s) /\ snd c = e_default E
         /\ readable E (fst (step E s o)) = e_default E).
   Proof.
-    destruct o as [v| | |v'|].
+    destruct o as [v| | |v'| |].
     - unfold step. destruct (e_validate E v) as [w|] eqn:Hv; [|intros []].
       destruct (e_kind E) as [m|].
       + destruct (is_nil hs); [intros []|]. set (nv := new_value E v w).
@@ -456,6 +460,7 @@ Section Spec.
       + intros [].
     - unfold step. destruct (e_validate E v'); [destruct (e_kind E)|]; intros [].
     - intros [].
+    - intros [].
   Qed.
 
   (* == and != are coherent: != answers False exactly when == answers True (what Python guarantees
@@ -474,7 +479,7 @@ Section Spec.
       destruct (h_mech h1), (h_mech h2); try reflexivity;
         destruct (e_eq E o w) eqn:Eq, (e_ne E o w) eqn:Ne; try reflexivity;
         try (specialize (H1 eq_refl); discriminate); try (specialize (H2 eq_refl); discriminate). }
-    induction ops as [|o r IH]; intros s; [reflexivity|]. destruct o as [v| | |v'|]; cbn [spec_calls]; [|apply IH| |apply IH|apply IH].
+    induction ops as [|o r IH]; intros s; [reflexivity|]. destruct o as [v| | |v'| |]; cbn [spec_calls]; [|apply IH| |apply IH|apply IH|apply IH].
     - destruct (e_validate E v) as [w|]; [|apply IH]. destruct (e_kind E) as [m|] eqn:K.
       + cbv zeta. rewrite !map_app, IH, Hcc. destruct (counts_as_change h2 (readable E s) (new_value E v w)); reflexivity.
       + cbn [map]. rewrite IH. reflexivity.
@@ -491,7 +496,7 @@ Section Spec.
     o_sink (snd (step E s o))
     = filter (fun c : call => existsb (fun h => (h_id h =? fst (fst c)) && h_raises h) hs) (o_calls (snd (step E s o))).
   Proof.
-    destruct o as [v| | |v'|].
+    destruct o as [v| | |v'| |].
     - unfold step. destruct (e_validate E v) as [w|]; [|reflexivity]. destruct (e_kind E) as [m|].
       + destruct (is_nil hs); [reflexivity|]. set (nv := new_value E v w).
         destruct (match m with MNone => true | _ => negb (readable E s =? nv) end); [|reflexivity].
@@ -503,6 +508,7 @@ Section Spec.
       destruct (match m with MNone => true | _ => negb (old =? e_default E) end); [|reflexivity].
       pose proof (notify_sink E (OVal old) (e_default E) Hwf) as N. destruct (notify E (OVal old) (e_default E)). exact N.
     - unfold step. destruct (e_validate E v'); [destruct (e_kind E)|]; reflexivity.
+    - reflexivity.
     - reflexivity.
   Qed.
 End Spec.
@@ -533,7 +539,7 @@ Section Transparent.
     fst (step (set_raises fr E) s o) = fst (step E s o)
     /\ visible (snd (step (set_raises fr E) s o)) = visible (snd (step E s o)).
   Proof.
-    destruct o as [v| | |v'|]; unfold step; cbn [e_validate e_kind e_default e_store_original set_raises].
+    destruct o as [v| | |v'| |]; unfold step; cbn [e_validate e_kind e_default e_store_original set_raises].
     - destruct (e_validate E v) as [w|]; [|split; reflexivity]. destruct (e_kind E) as [m|].
       + assert (is_nil (e_handlers (set_raises fr E)) = is_nil (e_handlers E)) as -> by (cbn; destruct (e_handlers E); reflexivity).
         destruct (is_nil (e_handlers E)); [split; reflexivity|].
@@ -561,6 +567,7 @@ Section Transparent.
       destruct (notify (set_raises fr E) (OVal old) (e_default E)), (notify E (OVal old) (e_default E)).
       cbn in N1. subst. split; reflexivity.
     - destruct (e_validate E v'); [destruct (e_kind E)|]; split; reflexivity.
+    - split; reflexivity.
     - split; reflexivity.
   Qed.
 
